@@ -80,6 +80,15 @@ def deflate_set_dictionary(ck, P):
     ad = fn.live_calls(r"adler32::adler32$")
     okad = bool(ad) and any(s.rel == "Eq" and "wrap" in s.names and 1 in s.consts for s in shape.dominating_sigs(fn, ad[0].bb))
     ck.decide(okad, R, "adler-under-wrap1", "dictionary Adler-32 computed only for zlib wrapping", "the dictionary id is not computed under wrap == 1", where(fn))
+    # the id is the Adler-32 of the dictionary the caller supplied, not of the tail kept for an over-long one:
+    # the adler32 call must not be reachable from the re-slicing of `dictionary`
+    di = fn.param_index("dictionary")
+    if ck.anchor("parameter `dictionary`", di is not None) and ad:
+        reslice = {bi for bi, si, rv in fn.defs.get(di, []) if bi in fn.live}
+        stale = any(ad[0].bb in fn.reach_from(b) for b in reslice)
+        ck.decide(bool(reslice) and not stale, R, "adler-of-whole-dictionary", "Adler-32 taken before the dictionary is cut to its last w_size bytes",
+                  "deflateSetDictionary computes the dictionary id after truncating an over-long dictionary to its tail: the announced id is not the "
+                  "Adler-32 of the dictionary the caller (and the decompressor) has", where(fn, ad[0].line))
     # PAIR: wrap, next_in, avail_in restored on the success path
     R2 = "PAIR/save-restore"
     fw = fn.live_calls(r"deflate::fill_window$")
